@@ -13,7 +13,14 @@ mod verif_c17 {
     // @h name=c17_seq_drop_path tier=quick timeout=900 flags=-Z+unstable-options+--cbmc-args+--memory-leak-check
     #[kani::proof]
     #[kani::unwind(5)]
-    fn c17_seq_drop_path() {
+    fn c17_seq_drop_path() { drop_path(3); }
+
+    // @h name=c17_seq_drop_calls5 tier=thorough timeout=3600 mem=24 flags=-Z+unstable-options+--cbmc-args+--memory-leak-check
+    #[kani::proof]
+    #[kani::unwind(7)]
+    fn c17_seq_drop_calls5() { drop_path(5); }
+
+    fn drop_path(calls: usize) {
         assert!(std::mem::needs_drop::<(Tk, Box<u8>)>());
         let s0: u8 = kani::any();
         let cell: OnceInitCell<(Tk, Box<u8>), (Tk, Box<u8>)> = OnceInitCell::new((Tk(0, s0), Box::new(s0)));
@@ -22,7 +29,7 @@ mod verif_c17 {
         let mut first_ref: Option<*const (Tk, Box<u8>)> = None;
         let mut runs = 0u8;
         let mut i = 0;
-        while i < 3 {
+        while i < calls {
             let op: u8 = kani::any();
             kani::assume(op < 3);
             match op {
@@ -78,7 +85,7 @@ mod verif_c17 {
         // at cell drop everything is released exactly once
         assert_eq!(drops(0), 1);
         assert_eq!(drops(1), if was_init { 1 } else { 0 });
-        kani::cover!(runs == 3 && was_init);
+        kani::cover!(runs as usize == calls && was_init);
         kani::cover!(runs == 2 && !was_init);
         kani::cover!(was_init && runs == 1);
         assert!(unsafe { !once_cell::MODEL_REENTRANT });
@@ -212,5 +219,27 @@ mod verif_c17 {
         assert!(v.0 .1 == s0 ^ 0x55 && unsafe { OBSERVED });
         unsafe { once_cell::ON_INIT_DONE = None; }
         std::mem::forget(cell);
+    }
+
+    // boundary seed type: zero-sized but with a destructor (must take the drop path)
+    struct ZDrop;
+    impl Drop for ZDrop { fn drop(&mut self) { unsafe { DROPS[5] += 1; } } }
+    // @h name=c17_zero_sized_seed_with_drop tier=quick timeout=600 flags=-Z+unstable-options+--cbmc-args+--memory-leak-check
+    #[kani::proof]
+    #[kani::unwind(5)]
+    fn c17_zero_sized_seed_with_drop() {
+        assert!(std::mem::needs_drop::<ZDrop>() && std::mem::size_of::<ZDrop>() == 0);
+        let cell: OnceInitCell<ZDrop, (Tk, Box<u8>)> = OnceInitCell::new(ZDrop);
+        let init: bool = kani::any();
+        if init {
+            let ok: bool = kani::any();
+            let r: Result<_, ()> = cell.get_or_try_init(|_| if ok { Ok((Tk(1, 9), Box::new(9))) } else { Err(()) });
+            assert_eq!(r.is_ok(), ok);
+            // exactly one of seed / value is live
+            assert_eq!(drops(5), if ok { 1 } else { 0 }, "the zero-sized seed's destructor did not run exactly once when it was retired");
+        }
+        drop(cell);
+        assert_eq!(drops(5), 1, "a seed was dropped twice or never");
+        kani::cover!(init);
     }
 }
